@@ -348,7 +348,7 @@ def trace_and_judge(ctx, r1, r2, only=None):
         for i, l in enumerate(rd.locals):
             if l["ty"] == HV:
                 st.write_key((i,), VER)
-        ps = [p for p in absint.explore(rd, t["target"], st) if p.end[0] not in DEAD]
+        ps = [p for p in absint.explore(rd, t["target"], st, on_call=absint.io_model) if p.end[0] not in DEAD]
         bad = [Q._ret_str(p) for p in ps if not (p.end[0] == "return" and p.ret()[0] == "agg" and p.ret()[2] == "Err")]
         ctx.ob(r2, "%s|header-error-propagates|%d" % (PM.read_def, k), "a header line the header parser rejects makes the head reader return an error (no request is built, the line is not skipped)",
                bool(ps) and not bad, rd.loc(bb), None if not bad else str(bad[:3]))
@@ -373,7 +373,7 @@ def trace_and_judge(ctx, r1, r2, only=None):
                 for i, l in enumerate(rd.locals):
                     if l["ty"] == HV:
                         st.write_key((i,), VER)
-                ps = [p for p in absint.explore(rd, t["target"], st) if p.end[0] not in DEAD]
+                ps = [p for p in absint.explore(rd, t["target"], st, on_call=absint.io_model) if p.end[0] not in DEAD]
                 bad = [Q._ret_str(p) for p in ps if not (p.end[0] == "return" and p.ret()[0] == "agg" and p.ret()[2] == "Err")]
                 ctx.ob(r2, "%s|new_request-error-propagates|%s" % (PM.read_def, v["name"]), "an error of new_request makes the head reader return an error", bool(ps) and not bad, rd.loc(bb),
                        None if not bad else str(bad[:3]))
@@ -400,7 +400,7 @@ def trace_and_judge(ctx, r1, r2, only=None):
             for i, l in enumerate(rd.locals):
                 if l["ty"] == HV:
                     st.write_key((i,), VER)
-            ps = [p for p in absint.explore(rd, ic["target"], st) if p.end[0] not in DEAD]
+            ps = [p for p in absint.explore(rd, ic["target"], st, on_call=absint.io_model) if p.end[0] not in DEAD]
             bad = [Q._ret_str(p) for p in ps if not (p.end[0] == "return" and p.ret()[0] == "agg" and p.ret()[2] == "Err")]
             ctx.ob(r2, "%s|line-error-propagates|%d|%s" % (PM.read_def, k, kind), "a failure of the line reader makes the head reader return an error", bool(ps) and not bad, rd.loc(b), None if not bad else str(bad[:3]))
             if k == 0 or b in first:
